@@ -550,7 +550,8 @@ func (j *c17j) implied(b []byte, corr bool) c17jRes {
 			}
 			tb := newC15tbl()
 			tb.addDoc(b)
-			ctx.Add("json.implied", impl, tb.String(), tree)
+			// the model WITH the nesting limit of /repo 0c63e6a (lean/CtyModel/d17JsonDepth.lean)
+			ctx.Add("d17.jsonimplied", impl, tb.String(), tree)
 		}
 	}
 	return r
@@ -934,6 +935,8 @@ func (j *c17j) families() {
 		ctx.Eval(fmt.Sprintf("family nesting %d", d), true)
 		tr(fmt.Sprintf("nesting %d", d))
 	}
+	d17JsonDepthBoundary(ctx)
+	tr("implied depth boundary")
 	// (b') numbers whose decimal exponent is large but inside big.Float's range, as set members: the set
 	// hash formats them (big.Float.String), which costs ~16 bytes and super-linear time per unit of exponent
 	{
